@@ -593,3 +593,34 @@ def hir_shape(node, _env=None):
             items.append((k, go(v)))
         return tuple(items)
     return go(node)
+
+
+def mentions_str_lit(F, node, value, crate="beff_core"):
+    """the HIR subtree mentions the string literal `value`, directly or through a named constant
+    (`const CLASS: &str = "..."`, whose initialiser is a body owner of its own)"""
+    for n in walk(node):
+        if n["k"] == "Lit" and n.get("v") == value:
+            return True
+        if n["k"] == "Path" and n.get("res") != "local" and n.get("def") and "Const" in (n.get("defkind") or ""):
+            ct = F.hir.get(F._callee_gid(crate, n["def"])) or F.hir.get(n["def"])
+            if ct is not None and not ct.get("params") and any(x["k"] == "Lit" and x.get("v") == value for x in walk(ct["body"])):
+                return True
+    return False
+
+
+def is_str_lit(F, node, value, crate="beff_core"):
+    """the expression IS the string literal `value` (through &, a named constant)"""
+    while isinstance(node, dict) and node.get("k") in ("AddrOf", "DropTemps"):
+        node = node["e"]
+    if not isinstance(node, dict):
+        return False
+    if node.get("k") == "Lit":
+        return node.get("v") == value
+    if node.get("k") == "Path" and node.get("res") != "local" and node.get("def"):
+        ct = F.hir.get(F._callee_gid(crate, node["def"])) or F.hir.get(node["def"])
+        if ct is not None and not ct.get("params"):
+            b = ct["body"]
+            while b.get("k") == "BlockExpr" and not b["block"].get("stmts") and b["block"].get("expr"):
+                b = b["block"]["expr"]
+            return b.get("k") == "Lit" and b.get("v") == value
+    return False
